@@ -1,256 +1,348 @@
-"""C04 intermediate states are orthonormal (structural clauses)."""
+"""C04 intermediate states: derivation skeleton by abstract evaluation."""
 from __future__ import annotations
 
-import ast
+from fractions import Fraction
 
-from ..abseval import Interp, Rec
-from ..model import AnalysisError, U, Defs, calls_in, call_name, walk_fn, kwarg, enclosing
-from ..pathcond import conditions
-from . import common, deriv
-from .c02 import taylor_builder, taylor_consumer
+from ..model import AnalysisError
+from ..symex import Obj
+from ..terms import T, sym, kwcall, mcall, call, t_mul, t_add, t_neg, t_pow, expand_products, subterms, args_of, show
+from . import dx
 
 EXPLANATION = (
-    "D1/D2 on intermediate_states.py (order linearity of all gen_term_orders splits in precursor, "
-    "overlap_precursor, intermediate_state, overlap_isr; bra | operator | ket order of every "
-    "Wick product). D3: every sum over indices from generic_indices_from_space(S) is lifted with "
-    "1/(n_o! n_v!) computed from n_ov_from_space(S) of the same S (precursor lower-space "
-    "projector, intermediate_state). R04a: index chaining of the S*S*... products in s_root "
-    "(consecutive pairs, len(taylor)-1 fresh interior strings, final assertion). R04b: "
-    "_generate_lower_spaces / validate_space evaluated on all space strings with <= 3 p and <= 3 "
-    "h against the class-lowering oracle. R04c: projector structure of precursor (subtracted, "
-    "ground-state projection only for pp, state factor outside the Wick product). R02c: Taylor "
-    "coefficients of (1+x)^-1/2.")
+    "Every method of intermediate_states.py is evaluated abstractly (sa.symex) for concrete orders, spaces and sides "
+    "with wicks, the ground-state wavefunctions, norm factors, excitation operators and the recursive sub-derivations "
+    "left uninterpreted, and the resulting sum of products is compared with the ISR construction on every path (also "
+    "the paths on which a norm factor vanishes). R04c precursor: NO(C_I)|Psi^(n)> minus (pp only) the ground-state "
+    "projection sum_{a+m=n} N^(a) sum_{i+j+k=m} |Psi^(i)> wicks(<Psi^(j)| NO(C_I) |Psi^(k)>) minus, for every lower "
+    "excitation class L, sum N^(a) 1/(n_o(L)! n_v(L)!) |L^(i)> wicks(<L^(j)| NO(C_I) |Psi^(k)>) on indices generated "
+    "for L (bra: mirrored, adjoint operators); refusal of foreign spaces, general indices and wrong index counts. "
+    "D3: the lifting prefactors of those sums and of intermediate_state / s_root. R04a s_root: sum_k c_k "
+    "sum_{o_1+..+o_k=n, o_i>=2} (1/(n_o! n_v!))^(k-1) S^(o_1)_{I,K1} S^(o_2)_{K1,K2} ... S^(o_k)_{K(k-1),J} with c_k the "
+    "Taylor coefficients of (1+x)^(-1/2) and fresh interior index strings of the block's space; off-diagonal blocks and "
+    "repeated indices refused. intermediate_state: 1/(n_o! n_v!) sum_{a+b=n} S^(-1/2,(a)) precursor^(b) with the "
+    "side-dependent index order. overlap_precursor / overlap_isr: sum N^(a) sum wicks(<I^(i)|J^(k)>). D1/D2 are read "
+    "off the same comparison (order splits complete, factor order inside wicks). R04b: _generate_lower_spaces / "
+    "validate_space evaluated on all space strings with <= 3 p and <= 3 h. R02c: Taylor coefficients of (1+x)^-1/2 "
+    "returned by expand_S_taylor for orders 0..9. amplitude_vector: configured left/right name on (virt, occ) indices.")
 ASSUMPTIONS = [
     "that the Taylor series of S^(-1/2) orthonormalises is mathematics, not checked",
     "symmetry of the precursor overlap is not decided",
+    "skeletons are evaluated for orders 0..3 (s_root 0..7, Taylor 0..9) and the listed spaces only (bounded)",
+    "wicks, psi, norm_factor, excitation_operator, NO/Dagger and the index generator are uninterpreted or modelled",
 ]
 
-IS = "intermediate_states:IntermediateStates."
+IS = dx.IS
+GEN = sym  # readability
 
 
-def d3(ctx):
-    rule = "D3"
-    deriv.d3_space_sites(ctx, rule, IS + "precursor", 1)
-    deriv.d3_space_sites(ctx, rule, IS + "intermediate_state", 1)
-    # the lifted sum must be part of the product: prefactor multiplies the projected state
-    fn = ctx.model.fn(IS + "precursor")
-    augs = [n for n in walk_fn(fn) if isinstance(n, ast.AugAssign) and U(n.target) == "projection"]
-    lower_loop = [n for n in walk_fn(fn) if isinstance(n, ast.For) and U(n.iter) == "lower_spaces"]
-    ctx.floor(rule, "lower-space loop in precursor", len(lower_loop), 1)
-    inside = [a for a in augs if enclosing(a, ast.For) is not None and any(p is lower_loop[0] for p in deriv.parents(a))]
-    for a in inside:
-        fs = [U(f) for f in deriv.flatten_mult(a.value.func.value if isinstance(a.value, ast.Call) else a.value)]
-        ctx.check(rule, a, sorted(fs) == ["i1", "prefactor", "state"], "lower-space projection: prefactor * state * <X|Y>",
-                  f"lower-space projection adds `{U(a.value)}`", key="precursor lower product")
-    ctx.floor(rule, "lower-space projection terms", len(inside), 1)
-    fn = ctx.model.fn(IS + "intermediate_state")
-    prods = [n for n in walk_fn(fn) if isinstance(n, ast.Assign) and U(n.targets[0]) == "i1"]
-    for p in prods:
-        fs = deriv.flatten_mult(p.value)
-        names = sorted(call_name(f) if isinstance(f, ast.Call) else U(f) for f in fs)
-        ctx.check(rule, p, names == ["precursor", "prefactor", "s_root"], "intermediate state: prefactor * S^-1/2 * precursor",
-                  f"intermediate state product is {names}", key="is product")
-        for f in fs:
-            if isinstance(f, ast.Call) and call_name(f) == "precursor":
-                ok = U(kwarg(f, "space", 1)) == "space" and U(kwarg(f, "braket", 2)) == "braket" \
-                    and U(kwarg(f, "indices", 3)) == "idx_pre"
-                ctx.check(rule, f, ok, "precursor of the same space/side on the summed indices",
-                          f"precursor factor `{U(f)[:80]}` does not use (space, braket, idx_pre)", key="is precursor args")
-            if isinstance(f, ast.Call) and call_name(f) == "s_root":
-                ok = U(kwarg(f, "block", 1)) == "(space, space)" and U(kwarg(f, "indices", 2)) == "s_indices[braket]"
-                ctx.check(rule, f, ok, "S^-1/2 of the diagonal block with side-dependent index order",
-                          f"s_root factor `{U(f)[:80]}`", key="is sroot args")
-    sd = [n for n in walk_fn(fn) if isinstance(n, ast.Dict)]
-    ok = any({U(k): U(v) for k, v in zip(d.keys, d.values)} ==
-             {"'bra'": "','.join([indices, idx_pre])", "'ket'": "','.join([idx_pre, indices])"} for d in sd)
-    ctx.check(rule, fn, ok, "bra: S_{I,K}; ket: S_{K,I}", "index order of S^-1/2 for bra/ket changed", key="is s_indices")
-    adds = [n for n in walk_fn(fn) if isinstance(n, ast.AugAssign) and U(n.target) == "res"]
-    ctx.check(rule, fn, len(adds) == 1 and U(adds[0].value) == "evaluate_deltas(i1.expand())", "each order split added once",
-              "intermediate_state accumulation changed", key="is add")
+def _isr(scen):
+    return scen.objects()[2]
 
 
-def r04a(ctx):
+def _lower(space):
+    out = []
+    while "p" in space and "h" in space:
+        space = space.replace("p", "", 1).replace("h", "", 1)
+        if space:
+            out.append(space)
+    return out
+
+
+def _NF(a):
+    return mcall(sym("gs"), "norm_factor", order=a)
+
+
+def _psi(o, bk):
+    return mcall(sym("gs"), "psi", order=o, braket=bk)
+
+
+def _state(meth, o, sp, bk, idx):
+    return mcall(sym("isr"), meth, order=o, space=sp, braket=bk, indices=idx)
+
+
+def _wicks(expr):
+    return kwcall("wicks", expr=expr, rules=None, simplify_kronecker_deltas=True)
+
+
+def _gen_for(scen, space):
+    return [k for k, sp in scen.generated.items() if sp == space]
+
+
+def _run(ctx, meth, scen, **kw):
+    sx = dx.make_sx(ctx, meth, scen, max_paths=8192, hooks=dx.taylor_hooks(),
+                    extra_inline={IS + ".expand_S_taylor"} if meth == "s_root" else (),
+                    oracle=dx.nothing_vanishes if meth == "s_root" else None)
+    fn = ctx.model.fn(f"{IS}.{meth}")
+    return fn, sx.run(fn, lambda: dict(self=_isr(scen), **kw))
+
+
+# ------------------------------------------------------------------ overlaps
+
+def overlaps(ctx):
+    rule = "R04c"
+    for meth, state in (("overlap_precursor", "precursor"), ("overlap_isr", "intermediate_state")):
+        for order in (0, 1, 2, 3):
+            for block, idx in ((("ph", "ph"), ("ia", "jb")), (("ph", "pphh"), ("ia", "jkbc"))):
+                if order == 3 and block[1] != "ph":
+                    continue
+                scen = dx.Scenario()
+                fn, outs = _run(ctx, meth, scen, order=order, block=",".join(block), indices=",".join(idx))
+                formula = [t_mul(_NF(a), _wicks(t_mul(_state(state, i, block[0], "bra", idx[0]), _state(state, k, block[1], "ket", idx[1]))))
+                           for a, m in dx.compositions(order, 2) for i, k in dx.compositions(m, 2)]
+                dx.check_formula(ctx, rule, fn, f"{meth}({order}, {block})", outs, formula, key=f"{meth} {order} {block[1]}")
+        scen = dx.Scenario()
+        fn, outs = _run(ctx, meth, scen, order=1, block="ph,ph", indices="ia")
+        dx.all_raise(ctx, rule, fn, f"{meth}: a single index string", outs, key=f"{meth} guard one string")
+    scen = dx.Scenario()
+    fn, outs = _run(ctx, "overlap_precursor", scen, order=1, block="ph,ph", indices="ia,ib")
+    dx.all_raise(ctx, rule, fn, "overlap_precursor: index shared by bra and ket", outs, key="overlap_precursor guard repeated")
+
+
+# ------------------------------------------------------------------ intermediate state
+
+def intermediate_state(ctx):
+    rule = "R04c"
+    for variant, space, idx in (("pp", "ph", "ia"), ("pp", "pphh", "ijab"), ("ip", "h", "i"), ("ip", "phh", "ija"), ("dea", "pp", "ab")):
+        for bk in ("bra", "ket"):
+            for order in (0, 1, 2, 3):
+                scen = dx.Scenario(variant=variant)
+                fn, outs = _run(ctx, "intermediate_state", scen, order=order, space=space, braket=bk, indices=idx)
+                what = f"intermediate_state({order}, {space}, {bk})"
+                g = _gen_for(scen, space)
+                ctx.check("D3", fn, len(scen.generated) == 1 and len(g) == 1, f"{what}: summed precursor indices generated for {space}",
+                          f"{what}: indices generated for {sorted(scen.generated.values())}, expected [{space}]", key=f"is generated {space} {bk} {order}")
+                if not g:
+                    continue
+                g = g[0]
+                sidx = f"{idx},{g}" if bk == "bra" else f"{g},{idx}"
+                formula = [t_mul(dx.lift(space), mcall(sym("isr"), "s_root", order=a, block=(space, space), indices=sidx),
+                                 _state("precursor", b, space, bk, g)) for a, b in dx.compositions(order, 2)]
+                dx.check_formula(ctx, rule, fn, what, outs, formula, key=f"is {space} {bk} {order}")
+    scen = dx.Scenario()
+    fn, outs = _run(ctx, "intermediate_state", scen, order=1, space="ph", braket="ket", indices="ia,jb")
+    dx.all_raise(ctx, rule, fn, "intermediate_state: two index strings", outs, key="is guard two strings")
+
+
+# ------------------------------------------------------------------ S^(-1/2)
+
+def s_root(ctx):
     rule = "R04a"
-    fnref = IS + "s_root"
-    fn, lo, mid, out = taylor_consumer(ctx, rule, fnref, "overlap_precursor")
-    c = [c for c in calls_in(fn) if call_name(c) == "expand_S_taylor"]
-    ok = len(c) == 1 and U(kwarg(c[0], "order", 0)) == "order" and U(kwarg(c[0], "min_order", 1)) == "2"
-    ctx.check(rule, fn, ok, "expansion in S(i>=2)", "s_root calls expand_S_taylor with other arguments", key="sroot taylor call")
-    idx0 = [a for a in common.assigns_to(fn, "idx")]
-    ctx.check(rule, fn, len(idx0) == 1 and U(idx0[0].value) == "list(indices)", "index list starts as [I, J]",
-              "index list of s_root does not start with the two given strings", key="sroot idx init")
-    gen_loops = [n for n in walk_fn(fn) if isinstance(n, ast.For) and any(call_name(c) == "generic_indices_from_space"
-                                                                          for c in calls_in(n))]
-    ctx.floor(rule, "interior index generation in s_root", len(gen_loops), 1)
-    g = gen_loops[0]
-    ctx.check(rule, g, U(g.iter).replace(" ", "") == "range(len(taylor_expansion)-1)",
-              "len(taylor)-1 interior index strings", f"interior strings generated for `{U(g.iter)}`", key="sroot interior count")
-    gc = [c for c in calls_in(g) if call_name(c) == "generic_indices_from_space"][0]
-    ctx.check(rule, gc, U(gc.args[0]) == "block[0]", "interior strings of the block's space",
-              f"interior strings generated for space `{U(gc.args[0])}`", key="sroot interior space")
-    ins = [c for c in calls_in(g) if call_name(c) == "insert"]
-    ctx.check(rule, g, len(ins) == 1 and U(ins[0].func.value) == "idx" and U(ins[0].args[0]) == "-1",
-              "interior strings inserted before the last string", "interior strings are not inserted before the last one",
-              key="sroot insert")
-    rel = [a for a in common.assigns_to(fn, "relevant_idx")]
-    ok = len(rel) == 1 and U(rel[0].value).replace(" ", "") == f"idx[:len({U(mid.target)})]+[idx[-1]]"
-    ctx.check(rule, mid, ok, "k factors use the first k strings and the last", f"relevant index list is `{U(rel[0].value) if rel else None}`",
-              key="sroot relevant")
-    mul = [n for n in lo.body if isinstance(n, ast.AugAssign)]
-    if mul:
-        call = mul[0].value
-        ok = U(kwarg(call, "indices", 2)).replace(" ", "") == "tuple(relevant_idx[:2])" and U(kwarg(call, "block", 1)) == "block"
-        ctx.check(rule, call, ok, "factor uses the current consecutive pair", f"factor indices are `{U(kwarg(call, 'indices', 2))}`",
-                  key="sroot pair")
-        dels = [s for s in lo.body if isinstance(s, ast.Delete) and U(s.targets[0]) == "relevant_idx[0]"]
-        k_mul = lo.body.index(mul[0])
-        ok = len(dels) == 1 and lo.body.index(dels[0]) > k_mul
-        ctx.check(rule, lo, ok, "pair advanced after each factor", "the index pair is not advanced after each factor", key="sroot advance")
-        brk = [s for s in lo.body if isinstance(s, ast.If) and isinstance(s.body[-1], ast.Break)]
-        for b in brk:
-            ctx.check(rule, b, lo.body.index(b) > lo.body.index(dels[0]) if dels else False,
-                      "early exit only after advancing", "loop may exit before the pair is advanced", key="sroot break order")
-    asserts = [s for s in mid.body if isinstance(s, ast.Assert)]
-    ok = any(U(a.test).replace(" ", "") == "len(relevant_idx)==1andrelevant_idx[0]==indices[1]" for a in asserts)
-    ctx.check(rule, mid, ok, "chain ends at the second given string", "final chain assertion removed or changed", key="sroot assert")
-    od = [n for n in walk_fn(fn) if isinstance(n, ast.Raise) and ("block[0] == block[1]", False) in conditions(n)]
-    ctx.check(rule, fn, bool(od), "off-diagonal blocks refused", "off-diagonal blocks are no longer refused", key="sroot offdiag")
-    adds = [s for s in mid.body if isinstance(s, ast.AugAssign) and U(s.target) == "res"]
-    ctx.check(rule, mid, len(adds) == 1 and U(adds[0].value) == "evaluate_deltas(i1.expand())", "deltas of products evaluated",
-              "product accumulation changed", key="sroot add")
+    for space, idx in (("ph", ("ia", "jb")), ("pphh", ("ijab", "klcd")), ("phh", ("ija", "klb"))):
+        for order in range(0, 8):
+            if order > 5 and space != "ph":
+                continue
+            scen = dx.Scenario(variant="pp" if "ph" == space[:2] or space == "ph" else "ip")
+            fn, outs = _run(ctx, "s_root", scen, order=order, block=f"{space},{space}", indices=",".join(idx))
+            what = f"s_root({order}, {space})"
+            kmax = max(order // 2, 1)
+            gens = _gen_for(scen, space)
+            ctx.check(rule, fn, len(gens) == kmax - 1 and len(scen.generated) == len(gens) and len(set(gens)) == len(gens),
+                      f"{what}: {kmax - 1} fresh interior index strings of the space {space}",
+                      f"{what}: interior index strings generated for {sorted(scen.generated.values())}, expected {kmax - 1} x {space}",
+                      key=f"sroot interior {space} {order}")
+            if len(gens) != kmax - 1:
+                continue
+            formula = []
+            if order < 2:
+                formula.append(mcall(sym("isr"), "overlap_precursor", order=order, block=(space, space), indices=idx))
+            else:
+                for k in range(1, kmax + 1):
+                    ck = dx.taylor_coefficient(Fraction(-1, 2), k)
+                    for os_ in dx.compositions(order, k, lo=2):
+                        chain = [idx[0]] + gens[:k - 1] + [idx[1]]
+                        fs = [mcall(sym("isr"), "overlap_precursor", order=o, block=(space, space), indices=(chain[m], chain[m + 1]))
+                              for m, o in enumerate(os_)]
+                        formula.append(t_mul(ck, dx.lift(space) ** (k - 1), *fs))
+            dx.check_formula(ctx, rule, fn, what, outs, formula, key=f"sroot {space} {order}", only_full=True)
+    scen = dx.Scenario()
+    fn, outs = _run(ctx, "s_root", scen, order=2, block="ph,pphh", indices="ia,jkbc")
+    dx.all_raise(ctx, rule, fn, "s_root: off-diagonal block", outs, key="sroot guard offdiag")
+    scen = dx.Scenario()
+    fn, outs = _run(ctx, "s_root", scen, order=2, block="ph,ph", indices="ia,ib")
+    dx.all_raise(ctx, rule, fn, "s_root: index shared by both strings", outs, key="sroot guard repeated")
 
+
+def taylor(ctx, rule="R02c"):
+    fn = ctx.model.fn(IS + ".expand_S_taylor")
+    for order in range(0, 10):
+        scen = dx.Scenario()
+        sx = dx.make_sx(ctx, "expand_S_taylor", scen, hooks=dx.taylor_hooks())
+        outs = sx.run(fn, lambda: dict(self=_isr(scen), order=order, min_order=2))
+        if order < 2:
+            want = [(1, [(order,)])]
+        else:
+            want = [(dx.taylor_coefficient(Fraction(-1, 2), k), [tuple(c) for c in dx.compositions(order, k, lo=2)])
+                    for k in range(1, order // 2 + 1)]
+        got = dx.val(outs[0]) if len(outs) == 1 and outs[0].kind == "return" else None
+        norm = None
+        if isinstance(got, list):
+            try:
+                norm = [(Fraction(p), sorted(tuple(t) for t in ts)) for p, ts in got]
+            except Exception:
+                norm = None
+        ctx.check(rule, fn, norm == [(Fraction(p), sorted(ts)) for p, ts in want], f"S^(-1/2) Taylor terms of order {order}",
+                  f"expand_S_taylor({order}) returns {show(got)[:300]}, expected {want}", key=f"S taylor {order}")
+    scen = dx.Scenario()
+    sx = dx.make_sx(ctx, "expand_S_taylor", scen, hooks=dx.taylor_hooks())
+    outs = sx.run(fn, lambda: dict(self=_isr(scen), order=4, min_order=0))
+    dx.all_raise(ctx, rule, fn, "expand_S_taylor: min_order 0", outs, key="S taylor guard")
+
+
+# ------------------------------------------------------------------ precursor
+
+def _model_get_indices():
+    """Model of Indices.get_indices for plain index strings (occ i-o, virt a-h, general p-z)."""
+    def get_indices(sx, a, kw):
+        s = a[1] if len(a) > 1 else kw.get("indices")
+        if not isinstance(s, str):
+            return NotImplemented
+        out = {}
+        import re
+        for name in re.findall(r"<[^>]*>|[a-z]\d*", s):
+            c = name[0]
+            if c == "<":
+                sp = "occ" if False else None
+                continue
+            sp = "occ" if "i" <= c <= "o" else "virt" if "a" <= c <= "h" else "general"
+            o = Obj(None, name)
+            o.attrs.update(name=name, space=sp, spin="")
+            out.setdefault((sp, ""), []).append(o)
+        return out
+    return {"Indices.get_indices": get_indices}
+
+
+def precursor(ctx):
+    rule = "R04c"
+    fn = ctx.model.fn(IS + ".precursor")
+    cases = (("pp", "ph", "ia"), ("pp", "pphh", "ijab"), ("ip", "h", "i"), ("ip", "phh", "ija"), ("ea", "pph", "iab"), ("pp", "ppphhh", "ijkabc"))
+    n = 0
+    for variant, space, idx in cases:
+        for bk in ("ket", "bra"):
+            for order in (0, 1, 2):
+                if space == "ppphhh" and order > 1:
+                    continue
+                scen = dx.Scenario(variant=variant)
+                sx = dx.make_sx(ctx, "precursor", scen, max_paths=8192, hooks=_model_get_indices())
+                outs = sx.run(fn, lambda: dict(self=_isr(scen), order=order, space=space, braket=bk, indices=idx))
+                what = f"{variant}: precursor({order}, {space}, {bk})"
+                occ = [sym(c) for c in idx if "i" <= c <= "o"]
+                virt = [sym(c) for c in idx if "a" <= c <= "h"]
+                X = mcall(sym("h"), "excitation_operator", creation=tuple(virt), annihilation=tuple(occ), reverse_annihilation=False)
+                if bk == "bra":
+                    X = call("Dagger", X)
+                NOX = call("NO", X)
+                lowers = _lower(space)
+                gens = {L: _gen_for(scen, L) for L in lowers}
+                ok = all(len(g) == 1 for g in gens.values()) and len(scen.generated) == len(lowers)
+                ctx.check("D3", fn, ok, f"{what}: one summed index string per lower class {lowers}",
+                          f"{what}: index strings generated for {sorted(scen.generated.values())}, expected one for each of {lowers}",
+                          key=f"precursor generated {variant} {space} {bk} {order}")
+                if not ok:
+                    continue
+                formula = [t_mul(NOX, _psi(order, bk))]
+                splits = [(a, t) for a, m in dx.compositions(order, 2) for t in dx.compositions(m, 3)]
+                if variant == "pp":
+                    for a, (t0, t1, t2) in splits:
+                        if bk == "ket":
+                            formula.append(t_mul(-1, _NF(a), _psi(t0, "ket"), _wicks(t_mul(_psi(t1, "bra"), NOX, _psi(t2, "ket")))))
+                        else:
+                            formula.append(t_mul(-1, _NF(a), _psi(t2, "bra"), _wicks(t_mul(_psi(t0, "bra"), NOX, _psi(t1, "ket")))))
+                for L in lowers:
+                    g = gens[L][0]
+                    for a, (t0, t1, t2) in splits:
+                        if bk == "ket":
+                            formula.append(t_mul(-1, _NF(a), dx.lift(L), _state("intermediate_state", t0, L, "ket", g),
+                                                 _wicks(t_mul(_state("intermediate_state", t1, L, "bra", g), NOX, _psi(t2, "ket")))))
+                        else:
+                            formula.append(t_mul(-1, _NF(a), dx.lift(L), _state("intermediate_state", t2, L, "bra", g),
+                                                 _wicks(t_mul(_psi(t0, "bra"), NOX, _state("intermediate_state", t1, L, "ket", g)))))
+                n += dx.check_formula(ctx, rule, fn, what, outs, formula, key=f"precursor {variant} {space} {bk} {order}")
+    ctx.floor(rule, "precursor paths equal to the formula", n, 40)
+    # guards
+    for variant, space, idx, why in (("ip", "ph", "ia", "space foreign to the variant"), ("pp", "ph", "ip", "general index"),
+                                     ("pp", "pphh", "ia", "index count does not fit the space"), ("pp", "ph", "ij", "occupied/virtual count does not fit")):
+        scen = dx.Scenario(variant=variant)
+        sx = dx.make_sx(ctx, "precursor", scen, hooks=_model_get_indices())
+        outs = sx.run(fn, lambda: dict(self=_isr(scen), order=0, space=space, braket="ket", indices=idx))
+        dx.all_raise(ctx, rule, fn, f"precursor: {why}", outs, key=f"precursor guard {why}")
+
+
+# ------------------------------------------------------------------ spaces, amplitude vector
 
 def r04b(ctx):
     rule = "R04b"
-    gl = ctx.model.fn(IS + "_generate_lower_spaces")
-    vs = ctx.model.fn(IS + "validate_space")
+    gl = ctx.model.fn(IS + "._generate_lower_spaces")
+    vs = ctx.model.fn(IS + ".validate_space")
     variants = {"pp": ["ph", "hp"], "ea": ["p"], "ip": ["h"], "dip": ["hh"], "dea": ["pp"]}
-    # the variants table in __init__
-    init = ctx.model.fn(IS + "__init__")
-    tab = None
-    for n in walk_fn(init):
-        if isinstance(n, ast.Assign) and U(n.targets[0]) == "variants" and isinstance(n.value, ast.Dict):
-            tab = ast.literal_eval(n.value)
-    ctx.check(rule, init, tab == variants, "minimal spaces per variant", f"variant table is {tab}", key="variants")
-
-    def oracle(s):
-        out = []
-        while "p" in s and "h" in s:
-            s = s.replace("p", "", 1).replace("h", "", 1)
-            if s:
-                out.append(s)
-        return out
-    spaces = ["p" * a + "h" * b for a in range(4) for b in range(4) if a + b]
-    spaces += ["hp", "hhp", "php"]
+    init = ctx.model.fn(IS + ".__init__")
+    for var, mins in variants.items():
+        scen = dx.Scenario()
+        sx = dx.make_sx(ctx, "__init__", scen, isinstance_hook=lambda s, o, c: True)
+        me = Obj(IS, "self")
+        outs = sx.run(init, lambda: dict(self=me, mp=Obj(dx.GS, "gs"), variant=var))
+        got = me.attrs.get("min_space")
+        ctx.check(rule, init, len(outs) == 1 and outs[0].kind == "return" and got == mins and me.attrs.get("variant") == var,
+                  f"{var}: minimal spaces {mins}", f"IntermediateStates(variant='{var}') sets min_space={got}, variant={me.attrs.get('variant')}",
+                  key=f"variants {var}")
+    scen = dx.Scenario()
+    sx = dx.make_sx(ctx, "__init__", scen, isinstance_hook=lambda s, o, c: True)
+    outs = sx.run(init, lambda: dict(self=Obj(IS, "self"), mp=Obj(dx.GS, "gs"), variant="xx"))
+    dx.all_raise(ctx, rule, init, "unknown ADC variant", outs, key="variants guard")
+    spaces = ["p" * a + "h" * b for a in range(4) for b in range(4) if a + b] + ["hp", "hhp", "php"]
     for s in spaces:
-        me = Rec("self")
-        kind, val = Interp({}, what="_generate_lower_spaces").call(gl, {"self": me, "space_str": s})
-        ctx.check(rule, gl, kind == "return" and val == oracle(s), f"lower spaces of {s}: {oracle(s)}",
-                  f"_generate_lower_spaces('{s}') gives {val}, expected {oracle(s)}", key=f"lower {s}")
-        for var, mins in (tab or variants).items():
-            def gen(i, node, a, kw):
-                k, v = Interp({}, what="_generate_lower_spaces").call(gl, {"self": me, "space_str": a[0]})
-                return v
-            me2 = Rec("self", min_space=mins, _generate_lower_spaces=gen)
-            kind, val = Interp({}, what="validate_space").call(vs, {"self": me2, "space_str": s})
-            want = s in mins or any(x in mins for x in oracle(s))
-            ctx.check(rule, vs, kind == "return" and bool(val) == want, f"{var}: {s} valid == {want}",
+        scen = dx.Scenario()
+        sx = dx.make_sx(ctx, "_generate_lower_spaces", scen)
+        outs = sx.run(gl, lambda: dict(self=_isr(scen), space_str=s))
+        val = dx.val(outs[0]) if len(outs) == 1 and outs[0].kind == "return" else None
+        ctx.check(rule, gl, val == _lower(s), f"lower spaces of {s}: {_lower(s)}",
+                  f"_generate_lower_spaces('{s}') gives {val}, expected {_lower(s)}", key=f"lower {s}")
+        for var, mins in variants.items():
+            scen = dx.Scenario(variant=var)
+            sx = dx.make_sx(ctx, "validate_space", scen)
+            outs = sx.run(vs, lambda: dict(self=_isr(scen), space_str=s))
+            val = dx.val(outs[0]) if len(outs) == 1 and outs[0].kind == "return" else None
+            want = s in mins or any(x in mins for x in _lower(s))
+            ctx.check(rule, vs, val is not None and not isinstance(val, T) and bool(val) == want, f"{var}: {s} valid == {want}",
                       f"validate_space('{s}') for {var}-ADC gives {val}, expected {want}", key=f"valid {var} {s}")
 
 
-def r04c(ctx):
-    """projector structure of precursor"""
+def amplitude_vector(ctx):
     rule = "R04c"
-    fn = ctx.model.fn(IS + "precursor")
-    subs = [n for n in walk_fn(fn) if isinstance(n, ast.AugAssign) and U(n.target) == "res"]
-    ctx.floor(rule, "projection subtractions in precursor", len(subs), 2)
-    for s in subs:
-        ctx.check(rule, s, isinstance(s.op, ast.Sub) and U(s.value) == "(norm * projection).expand()",
-                  "projection subtracted with its norm factor", f"precursor accumulates `{U(s)}`", key="projection subtract")
-    pp = [s for s in subs if ("self.variant == 'pp'", True) in conditions(s)]
-    ctx.check(rule, fn, len(pp) == 1, "ground-state projection only for pp-ADC",
-              "ground-state projection is not restricted to the pp variant", key="gs projection pp")
-    lead = [a for a in common.assigns_to(fn, "res") if isinstance(a, ast.Assign)]
-    ok = len(lead) == 1 and U(lead[0].value) == "(NO(operators) * max_gs).expand()"
-    ctx.check(rule, fn, ok, "leading term NO(C_I)|psi(n)>", f"leading term is `{U(lead[0].value) if lead else None}`", key="leading term")
-    mg = [a for a in common.assigns_to(fn, "max_gs")]
-    ok = len(mg) == 1 and U(kwarg(mg[0].value, "order", 0)) == "order" and U(kwarg(mg[0].value, "braket", 1)) == "braket"
-    ctx.check(rule, fn, ok, "leading wavefunction of the requested order and side", "leading wavefunction changed", key="leading wfn")
-    ops = [c for c in calls_in(fn) if call_name(c) == "excitation_operator"]
-    ok = len(ops) == 1 and U(kwarg(ops[0], "creation", 0)) == "virtual" and U(kwarg(ops[0], "annihilation", 1)) == "occupied" \
-        and U(kwarg(ops[0], "reverse_annihilation", 2)) == "False"
-    ctx.check(rule, fn, ok, "excitation operator a+ b+ ... i j (not reversed)", "precursor excitation operator changed", key="exc operator")
-    dag = [c for c in calls_in(fn) if call_name(c) == "Dagger"]
-    ctx.check(rule, fn, len(dag) == 1 and ("braket == 'bra'", True) in conditions(dag[0]), "bra: adjoint operators",
-              "adjoint for bra changed", key="dagger")
-    # state factor multiplies the evaluated matrix element: side-consistent
-    for a in [n for n in walk_fn(fn) if isinstance(n, ast.Assign) and U(n.targets[0]) == "state"]:
-        cs = conditions(a)
-        side = "ket" if ("braket == 'ket'", True) in cs else "bra" if ("braket == 'bra'", True) in cs else None
-        v = a.value
-        bk = None
-        if isinstance(v, ast.Call):
-            b = kwarg(v, "braket", 1 if call_name(v) == "get_gs_wfn" else 2)
-            bk = b.value if isinstance(b, ast.Constant) else None
-        ctx.check(rule, a, side is not None and bk == side, f"projected state is a {side} state",
-                  f"for a {side} precursor the projected state `{U(v)[:60]}` is a {bk} state", key=f"state side {side}")
-        if isinstance(v, ast.Call) and call_name(v) == "intermediate_state":
-            ok = U(kwarg(v, "space", 1)) == "lower_space" and U(kwarg(v, "indices", 3)) == "idx_isr"
-            ctx.check(rule, a, ok, "projection on the lower intermediate states with the summed indices",
-                      f"projected state `{U(v)[:70]}`", key=f"state args {side}")
-    for c in calls_in(fn):
-        if call_name(c) == "intermediate_state":
-            ok = U(kwarg(c, "space", 1)) == "lower_space" and U(kwarg(c, "indices", 3)) == "idx_isr"
-            ctx.check(rule, c, ok, "lower state on the summed indices", f"`{U(c)[:70]}`", key="lower state args")
-    # pp wrapper: memoised only above order//2
-    ov = ctx.model.fn(IS + "overlap_precursor")
-    for c in calls_in(ov):
-        if call_name(c) == "precursor":
-            bk = kwarg(c, "braket", 2).value
-            k = 0 if bk == "bra" else 1
-            ok = U(kwarg(c, "space", 1)) == f"block[{k}]" and U(kwarg(c, "indices", 3)) == f"indices[{k}]"
-            ctx.check(rule, c, ok, f"{bk} precursor from block[{k}]/indices[{k}]", f"`{U(c)[:80]}`", key=f"overlap precursor {bk}")
-    oi = ctx.model.fn(IS + "overlap_isr")
-    for c in calls_in(oi):
-        if call_name(c) == "intermediate_state":
-            bk = kwarg(c, "braket", 2).value
-            k = 0 if bk == "bra" else 1
-            ok = U(kwarg(c, "space", 1)) == f"block[{k}]" and U(kwarg(c, "indices", 3)) == f"indices[{k}]"
-            ctx.check(rule, c, ok, f"{bk} state from block[{k}]/indices[{k}]", f"`{U(c)[:80]}`", key=f"overlap isr {bk}")
-    for f in (ov, oi):
-        adds = [n for n in walk_fn(f) if isinstance(n, ast.AugAssign) and U(n.target) == "res"]
-        ctx.check(rule, f, len(adds) == 1 and isinstance(adds[0].op, ast.Add) and U(adds[0].value) == "(norm * overlap).expand()",
-                  f"{f.name}: norm * overlap added", f"{f.name}: accumulation changed", key=f"{f.name} add")
-        inner = [n for n in walk_fn(f) if isinstance(n, ast.AugAssign) and U(n.target) == "overlap"]
-        ctx.check(rule, f, len(inner) == 1 and isinstance(inner[0].op, ast.Add) and U(inner[0].value) == "i1",
-                  f"{f.name}: each order split added once", f"{f.name}: inner accumulation changed", key=f"{f.name} inner add")
+    fn = ctx.model.fn(IS + ".amplitude_vector")
+    for lr in ("left", "right"):
+        for idx in ("ia", "ijab", "ija"):
+            scen = dx.Scenario()
+            sx = dx.make_sx(ctx, "amplitude_vector", scen, hooks=_model_get_indices())
+            outs = sx.run(fn, lambda: dict(self=_isr(scen), indices=idx, lr=lr))
+            v = dx.val(outs[0]) if len(outs) == 1 and outs[0].kind == "return" else None
+            ok = isinstance(v, T) and v.op == "call" and v.args[0] == "Amplitude"
+            if ok:
+                a = args_of(v)
+                vals = list(a.values())
+                name, up, lo = vals[0], vals[1], vals[2]
+                ok = isinstance(name, T) and name.op == "attr" and name.args[1] == f"{lr}_adc_amplitude" and \
+                    tuple(up) == tuple(sym(c) for c in idx if "a" <= c <= "h") and tuple(lo) == tuple(sym(c) for c in idx if "i" <= c <= "o")
+            ctx.check(rule, fn, ok, f"{lr} amplitude vector on ({idx}): configured name, virtual indices upper, occupied lower",
+                      f"amplitude_vector('{idx}', '{lr}') builds {show(v)[:200]}", key=f"amplitude vector {lr} {idx}")
+
+
+def lower_layers(ctx):
+    """Everything the secular matrix and the properties are built from (run by C03/C05 as well)."""
+    from . import c02
+    if ctx.want("R04c"):
+        overlaps(ctx)
+        intermediate_state(ctx)
+        precursor(ctx)
+        amplitude_vector(ctx)
+    if ctx.want("R04a"):
+        s_root(ctx)
+    if ctx.want("R04b"):
+        r04b(ctx)
+    if ctx.want("R02c"):
+        taylor(ctx)
+    if hasattr(c02, "ground_state_layer"):
+        c02.ground_state_layer(ctx)
 
 
 def run(ctx):
-    if ctx.want("D1"):
-        deriv.d1(ctx, "D1", "intermediate_states", 9)
-    if ctx.want("D2"):
-        deriv.d2(ctx, "D2", "intermediate_states", 6)
-    if ctx.want("D3"):
-        d3(ctx)
-    if ctx.want("R04a"):
-        r04a(ctx)
-    if ctx.want("R04b"):
-        r04b(ctx)
-    if ctx.want("R04c"):
-        r04c(ctx)
-    if ctx.want("R02c"):
-        taylor_builder(ctx, "R02c", IS + "expand_S_taylor", "-0.5")
-        from . import c02 as _c02
-        _c02.r02c(ctx)
-    # ground-state layer (wavefunctions, norm factors) every expression is built from
-    from . import c02
-    if ctx.want("D1"):
-        deriv.d1(ctx, "D1", "groundstate", 6)
-    if ctx.want("D2"):
-        deriv.d2(ctx, "D2", "groundstate", 6)
-    if ctx.want("D3"):
-        c02.d3_psi(ctx)
-        c02.d3_operator(ctx)
-    if ctx.want("R02a"):
-        c02.r02a(ctx)
+    lower_layers(ctx)
